@@ -20,6 +20,9 @@ class Compiled:
         os.makedirs(self.src)
         self.texts = texts if texts is not None else render_bp.render_unit(unit, style)
         bpapi.write_files(self.src, self.texts)
+        import zlib
+
+        self.lint_first = zlib.crc32("".join(sorted(self.texts.values())).encode("utf-8", "replace")) % 4 != 0
         self.protos: Dict[str, Any] = {}
         self.outdirs: Dict[str, str] = {}
         self._pymods: Optional[pyexec.PyModules] = None
@@ -31,7 +34,12 @@ class Compiled:
     def parse(self, f: File, traditional: bool = False) -> Any:
         key = (f.base, traditional)
         if key not in self.protos:
-            self.protos[key] = bpapi.parse(self.path(f), traditional_mode=traditional)
+            self.protos[key] = proto = bpapi.parse(self.path(f), traditional_mode=traditional)
+            # the command line runs the linter between parsing and rendering unless -q is given: so do three of four
+            # units here (chosen by their text, so a unit is always compiled the same way); what the linter says is
+            # C20's business, but what it DOES to the schema it was shown reaches every generated file
+            if self.lint_first:
+                bpapi.lint(proto)
         return self.protos[key]
 
     def outdir(self, tag: str) -> str:
